@@ -149,6 +149,53 @@ func (b *Byz) alter(m *protocol.Message) *protocol.Message {
 			return &nm
 		}
 	}
+	if choice == 7 && b.Headers {
+		// compound alterations: a header rewrite together with a matching content change
+		switch c.S.Draw(3, "compound") {
+		case 0:
+			// a point-to-point message re-addressed to "everyone" (To == "", the scalar 0) whose scalar
+			// fields are set to a boundary value
+			if m.To != "" {
+				if tree, err := mut.Decode(m.Data); err == nil {
+					var cand []mut.Node
+					for _, n := range mut.Nodes(tree) {
+						if n.Shape == "bytes32" {
+							cand = append(cand, n)
+						}
+					}
+					if len(cand) > 0 {
+						n := cand[c.S.Draw(len(cand), "path")]
+						vals := [][]byte{make([]byte, 32), append(make([]byte, 31), 1)}
+						v := vals[c.S.Draw(len(vals), "value")]
+						t2 := mut.Set(mut.Clone(tree), n.Path, v)
+						nm.To = ""
+						nm.Data = mut.Encode(t2)
+						b.Applied = &mut.Result{Op: "readdress-to-all+boundary-scalar", Path: n.Path, Shape: n.Shape}
+						return &nm
+					}
+				}
+			}
+		case 1:
+			// the message meant for another recipient, consistently re-addressed to this one
+			for _, e := range b.bank {
+				if e.Origin == "same-session-cheater" && e.Round == int(m.RoundNumber) && e.Bcast == m.Broadcast && e.To != string(m.To) && e.To != "" && string(e.Data) != string(m.Data) {
+					nm.Data = e.Data
+					b.Applied = &mut.Result{Op: "payload-of-other-recipient", Note: " <- to=" + e.To}
+					return &nm
+				}
+			}
+		default:
+			// a later/earlier round's header with that round's own payload from the twin run
+			for _, e := range b.bank {
+				if e.Origin == "twin-cheater" && e.Round != int(m.RoundNumber) && e.To == string(m.To) && e.Bcast == m.Broadcast {
+					nm.Data = e.Data
+					nm.RoundNumber = round.Number(e.Round)
+					b.Applied = &mut.Result{Op: "other-round-message", Note: fmt.Sprintf(" <- twin r%d", e.Round)}
+					return &nm
+				}
+			}
+		}
+	}
 	if choice == 8 {
 		// whole-payload substitution
 		var cands []mut.BankEntry
